@@ -1,7 +1,7 @@
 SPECIFICATION Spec
 CONSTANTS
-  Ecus <- EcusVal
-  LcOfEcu <- LcOfEcuVal
+  Ecus <- EcusOne
+  LcOfEcu <- LcOfEcuOne
   LcStart <- LcStartVal
   W = 3
   D = 1
